@@ -121,6 +121,36 @@ def vacuity(tmp: Path) -> list:
     return fails
 
 
+def logname() -> list:
+    """LogName.tla is bound to util: the unchanged functions agree on every case, two classic slips do not."""
+    from aioesphomeapi import util
+
+    from vf import lognamesim
+
+    class _C:
+        def tlc(self, module, **kw):
+            return tlcmod.run_tlc(module, **kw)
+
+    fails = []
+    if lognamesim.run(_C())["mismatches"]:
+        fails.append("LogName: the unchanged util functions are rejected")
+    orig = util.address_is_local
+    util.address_is_local = lambda a: a.endswith(".local")  # forgets the fully qualified form "dev.local."
+    try:
+        if not lognamesim.run(_C())["mismatches"]:
+            fails.append("LogName: address_is_local without removesuffix('.') is accepted")
+    finally:
+        util.address_is_local = orig
+    orig = util.host_is_name_part
+    util.host_is_name_part = lambda a: "." not in a  # an IPv6 literal taken for a bare name
+    try:
+        if not lognamesim.run(_C())["mismatches"]:
+            fails.append("LogName: host_is_name_part accepting IPv6 literals is accepted")
+    finally:
+        util.host_is_name_part = orig
+    return fails
+
+
 def seeded() -> list:
     fails = []
     for d in sorted((ROOT / "seeded").glob("*")):
@@ -144,6 +174,9 @@ def main(arg) -> int:
         v = vacuity(tmp)
         print("vacuity guards:", "ok" if not v else v, flush=True)
         fails += v
+        ln = logname()
+        print("LogName binding:", "ok" if not ln else ln, flush=True)
+        fails += ln
     for f in fails:
         print("SELFTEST-FAIL:", f)
     return 2 if fails else 0
